@@ -66,7 +66,7 @@ def proj : Except PErr (Nat × Nat × Bytes) → Except PErr (Nat × Nat)
   | .ok (l, m, _) => .ok (l, m)
   | .error e => .error e
 
-theorem tlfLoop_spec (rest : Bytes) : ∀ (pre : Bytes), pre.length + rest.length ≤ u32Max →
+theorem tlfLoop_spec (rest : Bytes) : ∀ (pre : Bytes),
     proj (tlfLoop (nibVal pre) pre.length rest) =
       match (List.range' pre.length ((rest.takeWhile more).length + 1)).findSome?
           (contError (pre ++ rest)) with
@@ -75,13 +75,12 @@ theorem tlfLoop_spec (rest : Bytes) : ∀ (pre : Bytes), pre.length + rest.lengt
                      pre.length + (rest.takeWhile more).length + 1) := by
   induction rest with
   | nil =>
-    intro pre _
+    intro pre
     simp [tlfLoop, proj, contError_end]
   | cons b rest ih =>
-    intro pre hlen
-    have hlen' : ¬ (pre.length + 1 > u32Max) := by simp at hlen; omega
+    intro pre
     rw [tlfLoop, List.range'_succ, List.findSome?_cons, contError_at]
-    simp only [hlen', if_false, nib_bridge, more_bridge]
+    simp only [nib_bridge, more_bridge]
     by_cases hty : tyBits b ≠ 0
     · simp [hty, (tyz_bridge b).2 hty, proj]
     · have hty' : ¬ (tlfTyBits b ≠ 0) := fun h => hty ((tyz_bridge b).1 h)
@@ -93,7 +92,7 @@ theorem tlfLoop_spec (rest : Bytes) : ∀ (pre : Bytes), pre.length + rest.lengt
           simp only [u32Max] at hov ⊢; omega
         simp only [hov, h2, if_false]
         by_cases hm : more b = true
-        · have := ih (pre ++ [b]) (by simp at hlen ⊢; omega)
+        · have := ih (pre ++ [b])
           simp only [nibVal_snoc, List.length_append, List.length_singleton,
             List.append_assoc, List.singleton_append] at this
           simp only [hm, if_true, List.takeWhile_cons, List.length_cons]
@@ -132,30 +131,25 @@ theorem tlfLoop_rest (rest : Bytes) : ∀ (len n l m : Nat) (r : Bytes),
     · simp at h
     · split at h
       · simp at h
-      · split at h
+      · simp only at h
+        split at h
         · simp at h
-        · simp only at h
-          split at h
-          · simp at h
-          · split at h
-            · obtain ⟨h1, h2, h3, h4⟩ := ih _ _ _ _ _ h
-              refine ⟨by omega, by simp; omega, ?_, h4⟩
-              rw [h3, show m - n = (m - (n + 1)) + 1 by omega, List.drop_succ_cons]
-            · simp only [Except.ok.injEq, Prod.mk.injEq] at h
-              obtain ⟨h1, h2, h3⟩ := h
-              subst h1 h2 h3
-              refine ⟨by omega, by simp, by simp, by omega⟩
+        · split at h
+          · obtain ⟨h1, h2, h3, h4⟩ := ih _ _ _ _ _ h
+            refine ⟨by omega, by simp; omega, ?_, h4⟩
+            rw [h3, show m - n = (m - (n + 1)) + 1 by omega, List.drop_succ_cons]
+          · simp only [Except.ok.injEq, Prod.mk.injEq] at h
+            obtain ⟨h1, h2, h3⟩ := h
+            subst h1 h2 h3
+            refine ⟨by omega, by simp, by simp, by omega⟩
 
 theorem tlfLoop_no_panic (rest : Bytes) : ∀ (len n : Nat) (s : String),
-    n + rest.length ≤ u32Max → tlfLoop len n rest ≠ .error (.panic s) := by
+    tlfLoop len n rest ≠ .error (.panic s) := by
   induction rest with
-  | nil => intro len n s _; simp [tlfLoop]
+  | nil => intro len n s; simp [tlfLoop]
   | cons b rest ih =>
-    intro len n s hlen
-    simp only [List.length_cons] at hlen
+    intro len n s
     rw [tlfLoop]
-    have hlen' : ¬ (n + 1 > u32Max) := by omega
-    simp only [hlen', if_false]
     split
     · simp
     · split
@@ -166,7 +160,341 @@ theorem tlfLoop_no_panic (rest : Bytes) : ∀ (len n : Nat) (s : String),
           simp only [u32Max] at hov ⊢; omega
         simp only [h2, if_false]
         split
-        · exact ih _ _ _ (by omega)
+        · exact ih _ _ _
         · simp
+
+/-! ### `parseTlf` against the positional rule -/
+
+/-- projection of a parser result to (value, number of consumed bytes) -/
+def consumed (bs : Bytes) : PRes Tlf → Except PErr (Tlf × Nat)
+  | .ok (t, rest) => .ok (t, bs.length - rest.length)
+  | .error e => .error e
+
+theorem parseTlf_eq_spec (bs : Bytes) :
+    consumed bs (parseTlf bs) = tlfSpec bs := by
+  cases bs with
+  | nil => simp [parseTlf, tlfSpec, consumed]
+  | cons b rest =>
+    rw [parseTlf, tlfSpec, ofBits_bridge]
+    cases hty : tyOfBits (tyBits b) with
+    | none => simp [consumed]
+    | some ty =>
+      simp only [more_bridge, nib_bridge]
+      by_cases hres : ty = .boolean ∧ more b = true
+      · simp [hres, consumed]
+      · simp only [hres, if_false]
+        by_cases hm : more b = true
+        · simp only [hm, if_true, List.takeWhile_cons, List.length_cons]
+          have hspec := tlfLoop_spec rest [b]
+          simp only [nibVal_single, List.length_singleton, List.singleton_append] at hspec
+          cases hF : (List.range' 1 ((List.takeWhile more rest).length + 1)).findSome?
+              (contError (b :: rest)) with
+          | some e =>
+            rw [hF] at hspec
+            rw [proj_eq_error hspec]
+            simp [consumed]
+          | none =>
+            rw [hF] at hspec
+            simp only [Nat.add_comm 1] at hspec
+            obtain ⟨r, hr⟩ := proj_eq_ok hspec
+            obtain ⟨h1, h2, h3, h4⟩ := tlfLoop_rest _ _ _ _ _ _ hr
+            rw [hr]
+            have hrl : r.length = rest.length - ((List.takeWhile more rest).length + 1) := by
+              rw [h3]; simp
+            generalize nibVal (List.take ((List.takeWhile more rest).length + 1 + 1) (b :: rest)) = v
+              at *
+            generalize (List.takeWhile more rest).length = j at *
+            have hiff : (j + 1 + 1 > u32Max ∨ v < j + 1 + 1) ↔ v < j + 1 + 1 := by omega
+            have hcons : rest.length + 1 - r.length = j + 1 + 1 := by omega
+            by_cases hl : ty = .listOf
+            · simp [hl, consumed, hcons]
+            · simp only [hl, if_false, ne_eq, not_false_eq_true, if_true, hiff]
+              split <;> simp [consumed, hcons]
+        · have hm' : more b = false := by simpa using hm
+          simp only [hm', Bool.false_eq_true, if_false, List.takeWhile_cons, List.length_nil,
+            List.range'_zero, List.findSome?_nil, Nat.zero_add, List.take_succ_cons,
+            List.take_zero, nibVal_single]
+          by_cases hl : ty = .listOf
+          · simp [hl, consumed]
+          · have hiff : (1 > u32Max ∨ nib b < 1) ↔ nib b < 1 := by simp [u32Max]
+            simp only [hl, if_false, ne_eq, not_false_eq_true, if_true, hiff]
+            split <;> simp [consumed]
+
+theorem parseTlf_ok (bs : Bytes) (t : Tlf) (rest : Bytes) (h : parseTlf bs = .ok (t, rest)) :
+    ∃ n, n ≤ bs.length ∧ 1 ≤ n ∧ rest = bs.drop n ∧ t.len ≤ u32Max := by
+  cases bs with
+  | nil => simp [parseTlf] at h
+  | cons b bs =>
+    rw [parseTlf] at h
+    split at h
+    · simp at h
+    · split at h
+      · simp at h
+      · simp only at h
+        have key : ∀ l m r, (if tlfMore b = true then tlfLoop (tlfNibble b) 1 bs
+              else .ok (tlfNibble b, 1, bs)) = .ok (l, m, r) →
+            1 ≤ m ∧ m - 1 ≤ bs.length ∧ r = bs.drop (m - 1) ∧ l ≤ u32Max := by
+          intro l m r hr
+          split at hr
+          · obtain ⟨h1, h2, h3, h4⟩ := tlfLoop_rest _ _ _ _ _ _ hr
+            exact ⟨by omega, h2, h3, h4⟩
+          · simp only [Except.ok.injEq, Prod.mk.injEq] at hr
+            obtain ⟨h1, h2, h3⟩ := hr
+            subst h1 h2 h3
+            have : tlfNibble b < 16 := by rw [nib_bridge]; exact nib_lt b
+            refine ⟨by omega, by simp, by simp, by simp only [u32Max]; omega⟩
+        split at h
+        · simp at h
+        · rename_i l m r hr
+          obtain ⟨h1, h2, h3, h4⟩ := key _ _ _ hr
+          have hdrop : r = List.drop m (b :: bs) := by
+            rw [h3, show m = (m - 1) + 1 by omega, List.drop_succ_cons]; simp
+          split at h
+          · split at h
+            · simp at h
+            · simp only [Except.ok.injEq, Prod.mk.injEq] at h
+              obtain ⟨ht, hr'⟩ := h
+              subst ht hr'
+              exact ⟨m, by simp; omega, h1, hdrop, by simp; omega⟩
+          · simp only [Except.ok.injEq, Prod.mk.injEq] at h
+            obtain ⟨ht, hr'⟩ := h
+            subst ht hr'
+            exact ⟨m, by simp; omega, h1, hdrop, h4⟩
+
+theorem parseTlf_no_panic (bs : Bytes) (s : String) :
+    parseTlf bs ≠ .error (.panic s) := by
+  cases bs with
+  | nil => simp [parseTlf]
+  | cons b bs =>
+    rw [parseTlf]
+    split
+    · rename_i e he
+      intro hc
+      simp only [Except.error.injEq] at hc
+      subst hc
+      rw [ofBits_bridge] at he
+      split at he <;> simp at he
+    · split
+      · simp
+      · simp only
+        split
+        · rename_i e he
+          intro hc
+          simp only [Except.error.injEq] at hc
+          subst hc
+          split at he
+          · exact tlfLoop_no_panic _ _ _ _ he
+          · simp at he
+        · split
+          · split <;> simp
+          · simp
+
+/-! ### big-endian values and sign extension -/
+
+theorem beNat_nil : beNat [] = 0 := rfl
+
+theorem foldl_be (bs : Bytes) : ∀ a : Nat,
+    bs.foldl (fun acc b => acc * 256 + b.toNat) a = a * 256 ^ bs.length + beNat bs := by
+  induction bs with
+  | nil => intro a; simp [beNat]
+  | cons b bs ih =>
+    intro a
+    simp only [beNat, List.foldl_cons, List.length_cons] at ih ⊢
+    rw [ih (a * 256 + b.toNat), ih (0 * 256 + b.toNat)]
+    simp only [Nat.zero_mul, Nat.zero_add, Nat.pow_succ, Nat.add_mul]
+    rw [Nat.mul_assoc, Nat.mul_comm 256]
+    omega
+
+theorem beNat_cons (b : UInt8) (bs : Bytes) :
+    beNat (b :: bs) = b.toNat * 256 ^ bs.length + beNat bs := by
+  have := foldl_be bs (0 * 256 + b.toNat)
+  simpa [beNat] using this
+
+theorem beNat_append (as bs : Bytes) :
+    beNat (as ++ bs) = beNat as * 256 ^ bs.length + beNat bs := by
+  simp only [beNat, List.foldl_append]
+  exact foldl_be bs _
+
+theorem beNat_lt (bs : Bytes) : beNat bs < 256 ^ bs.length := by
+  induction bs with
+  | nil => simp [beNat]
+  | cons b bs ih =>
+    rw [beNat_cons, List.length_cons, Nat.pow_succ]
+    have hb := b.toNat_lt
+    have : b.toNat * 256 ^ bs.length ≤ 255 * 256 ^ bs.length := Nat.mul_le_mul_right _ (by omega)
+    omega
+
+theorem beNat_replicate_zero (k : Nat) : beNat (List.replicate k (0 : UInt8)) = 0 := by
+  induction k with
+  | zero => rfl
+  | succ k ih => rw [List.replicate_succ, beNat_cons, ih]; simp
+
+theorem beNat_replicate_ff (k : Nat) : beNat (List.replicate k (0xFF : UInt8)) + 1 = 256 ^ k := by
+  induction k with
+  | zero => rfl
+  | succ k ih =>
+    rw [List.replicate_succ, beNat_cons, List.length_replicate, Nat.pow_succ]
+    have : (0xFF : UInt8).toNat = 255 := rfl
+    rw [this]; omega
+
+theorem two_pow_8 (n : Nat) : 2 ^ (8 * n) = 256 ^ n := by
+  rw [Nat.pow_mul]
+
+theorem two_pow_8_pred (n : Nat) (h : 1 ≤ n) : 2 ^ (8 * n - 1) * 2 = 256 ^ n := by
+  rw [← Nat.pow_succ, ← two_pow_8]; congr 1; omega
+
+
+theorem fromBe_unsigned_ext (size k : Nat) (bs : Bytes) :
+    fromBe false size (List.replicate k (0x00 : UInt8) ++ bs) = beNat bs := by
+  simp [fromBe, beNat_append, beNat_replicate_zero]
+
+theorem fromBe_signed_ext (b0 : UInt8) (tl : Bytes) (k : Nat) :
+    fromBe true (k + (tl.length + 1))
+        (List.replicate k (if b0 > 0x7F then (0xFF : UInt8) else 0x00) ++ b0 :: tl) =
+      if b0.toNat ≥ 128 then (beNat (b0 :: tl) : Int) - (2 ^ (8 * (tl.length + 1)) : Nat)
+      else beNat (b0 :: tl) := by
+  have hP : 0 < 256 ^ tl.length := Nat.pow_pos (by decide)
+  have hQ : 0 < 256 ^ k := Nat.pow_pos (by decide)
+  have ht := beNat_lt tl
+  have hb := b0.toNat_lt
+  have hW : 256 ^ (k + (tl.length + 1)) = 256 ^ k * (256 ^ tl.length * 256) := by
+    rw [Nat.pow_add, Nat.pow_succ]
+  have hH := two_pow_8_pred (k + (tl.length + 1)) (by omega)
+  have hWge : 1 * (256 ^ tl.length * 256) ≤ 256 ^ k * (256 ^ tl.length * 256) :=
+    Nat.mul_le_mul_right _ hQ
+  have hL : 2 ^ (8 * (tl.length + 1)) = 256 ^ tl.length * 256 := by
+    rw [two_pow_8, Nat.pow_succ]
+  rw [hW] at hH
+  simp only [fromBe, beNat_append, List.length_cons, two_pow_8, hL, true_and, hW, Nat.pow_succ]
+  rw [beNat_cons]
+  generalize hPd : 256 ^ tl.length = P at *
+  generalize beNat tl = t at *
+  by_cases hneg : b0.toNat ≥ 128
+  · have hgt : b0 > 0x7F := (gt7F_bridge b0).2 hneg
+    have hY : 128 * P ≤ b0.toNat * P := Nat.mul_le_mul_right _ hneg
+    have hF := beNat_replicate_ff k
+    have hZ : (beNat (List.replicate k (0xFF : UInt8)) + 1) * (P * 256)
+        = beNat (List.replicate k (0xFF : UInt8)) * (P * 256) + P * 256 := by
+      rw [Nat.add_mul, Nat.one_mul]
+    rw [hF] at hZ
+    simp only [hgt, if_true, hneg]
+    generalize beNat (List.replicate k (0xFF : UInt8)) * (P * 256) = Z at *
+    generalize b0.toNat * P = Y at *
+    generalize 256 ^ k * (P * 256) = W at *
+    generalize 2 ^ (8 * (k + (tl.length + 1)) - 1) = H at *
+    have hc : Z + (Y + t) ≥ H := by omega
+    rw [if_pos hc]
+    omega
+  · have hgt : ¬ b0 > 0x7F := fun h => hneg ((gt7F_bridge b0).1 h)
+    have hY : b0.toNat * P ≤ 127 * P := Nat.mul_le_mul_right _ (by omega)
+    simp only [hgt, if_false, hneg, beNat_replicate_zero, Nat.zero_mul, Nat.zero_add]
+    generalize b0.toNat * P = Y at *
+    generalize 256 ^ k * (P * 256) = W at *
+    generalize 2 ^ (8 * (k + (tl.length + 1)) - 1) = H at *
+    have hc : ¬ (Y + t ≥ H) := by omega
+    rw [if_neg hc]
+
+
+/-! ### numbers, booleans, octet strings, width classes -/
+
+theorem numCheck_iff (signed : Bool) (size : Nat) (tlf : Tlf) :
+    numCheck signed size tlf = true ↔
+      tlf.ty = (if signed then Ty.integer else Ty.unsigned) ∧ 1 ≤ tlf.len ∧ tlf.len ≤ size := by
+  simp only [numCheck, Bool.and_eq_true, decide_eq_true_eq, bne_iff_ne, ne_eq]
+  constructor
+  · rintro ⟨⟨a, b⟩, c⟩; exact ⟨a, by omega, b⟩
+  · rintro ⟨a, b, c⟩; exact ⟨⟨a, c⟩, by omega⟩
+
+/-- unsigned: zero extension keeps the plain big-endian value -/
+theorem parseNum_unsigned (size : Nat) (input : Bytes) (tlf : Tlf)
+    (h : numCheck false size tlf = true) :
+    parseNum false size input tlf =
+      if input.length < tlf.len then .error .unexpectedEOF
+      else .ok ((beNat (input.take tlf.len) : Int), input.drop tlf.len) := by
+  obtain ⟨_, h1, h2⟩ := (numCheck_iff _ _ _).1 h
+  unfold parseNum takeN
+  by_cases hl : input.length < tlf.len
+  · simp [hl]
+  · have h3 : ¬ size < tlf.len := by omega
+    simp [hl, h3, fromBe_unsigned_ext]
+
+/-- signed: sign extension followed by `from_be_bytes` is the two's-complement value of the
+    encoded bytes -/
+theorem parseNum_signed (size : Nat) (input : Bytes) (tlf : Tlf)
+    (h : numCheck true size tlf = true) (hl : ¬ input.length < tlf.len) :
+    ∃ b0 tl, input.take tlf.len = b0 :: tl ∧
+      parseNum true size input tlf =
+        .ok ((if b0.toNat ≥ 128 then (beNat (b0 :: tl) : Int) - (2 ^ (8 * (tl.length + 1)) : Nat)
+              else beNat (b0 :: tl)), input.drop tlf.len) := by
+  obtain ⟨_, h1, h2⟩ := (numCheck_iff _ _ _).1 h
+  have hlen : (input.take tlf.len).length = tlf.len := by simp; omega
+  cases hb : input.take tlf.len with
+  | nil => rw [hb] at hlen; simp at hlen; omega
+  | cons b0 tl =>
+    refine ⟨b0, tl, rfl, ?_⟩
+    rw [hb] at hlen
+    simp only [List.length_cons] at hlen
+    have h3 : ¬ size < tlf.len := by omega
+    unfold parseNum takeN
+    simp only [hl, if_false, hb, if_true, h3]
+    have hsz : size = (size - tlf.len) + (tl.length + 1) := by omega
+    rw [hsz, ← fromBe_signed_ext b0 tl (size - tlf.len)]
+    simp [hlen]
+    
+
+theorem parseBoolWith_eq (input : Bytes) (tlf : Tlf) :
+    parseBoolWith input tlf =
+      match input with
+      | [] => .error .unexpectedEOF
+      | b :: rest => .ok (decide (b ≠ 0), rest) := by
+  cases input with
+  | nil => rfl
+  | cons b rest => simp only [parseBoolWith, takeByte, pos_bridge]
+
+theorem parseOctetWith_eq (input : Bytes) (tlf : Tlf) :
+    parseOctetWith input tlf =
+      if input.length < tlf.len then .error .unexpectedEOF
+      else .ok (input.take tlf.len, input.drop tlf.len) := rfl
+
+theorem cases_1_8 (w : Nat) (hw : 1 ≤ w ∧ w ≤ 8) :
+    w = 1 ∨ w = 2 ∨ w = 3 ∨ w = 4 ∨ w = 5 ∨ w = 6 ∨ w = 7 ∨ w = 8 := by omega
+
+
+theorem value_int_rej (w : Nat) (h : w = 0 ∨ 8 < w) (input : Bytes) :
+    parseValueWith input ⟨.integer, w⟩ = .error .tlfMismatch ∧
+    parseValueWith input ⟨.unsigned, w⟩ = .error .tlfMismatch ∧
+    parseStatusWith input ⟨.unsigned, w⟩ = .error .tlfMismatch := by
+  have e1 : ∀ s, s ≤ 8 → ¬ (w ≤ s ∧ ¬ w = 0) := by intro s hs; omega
+  refine ⟨?_, ?_, ?_⟩ <;>
+    simp [parseValueWith, parseStatusWith, boolCheck, octetCheck, numCheck, listTypeCheck,
+      e1 1, e1 2, e1 4, e1 8]
+
+
+/-! ### a field of unbounded size (regression witness for the `tlf_len` counter) -/
+
+theorem tlfLoop_zeros (n : Nat) : ∀ m,
+    tlfLoop 0 m (List.replicate n (0x80 : UInt8) ++ [0x05]) = .ok (5, m + n + 1, []) := by
+  have h1 : tlfTyBits 0x80 = 0 := by decide
+  have h2 : tlfNibble 0x80 = 0 := by decide
+  have h3 : tlfMore 0x80 = true := by decide
+  induction n with
+  | zero => intro m; rfl
+  | succ n ih =>
+    intro m
+    rw [List.replicate_succ, List.cons_append, tlfLoop]
+    simp only [h1, h2, h3, ne_eq, not_true_eq_false, if_false, Nat.zero_mul, Nat.zero_add,
+      show ¬ (0 > u32Max) by decide, if_true]
+    rw [ih (m + 1)]
+    simp only [Nat.add_assoc, Nat.add_comm 1]
+
+theorem parseTlf_long (n : Nat) (hn : 4 ≤ n) :
+    parseTlf (List.replicate (n + 1) (0x80 : UInt8) ++ [0x05]) = .error .tlfLengthUnderflow := by
+  have h1 : tlfTyBits 0x80 = 0 := by decide
+  have h2 : tlfNibble 0x80 = 0 := by decide
+  have h3 : tlfMore 0x80 = true := by decide
+  rw [List.replicate_succ, List.cons_append, parseTlf]
+  simp only [h1, h2, h3, Ty.ofBits, if_true, tlfLoop_zeros]
+  have : 1 + n + 1 > u32Max ∨ 5 < 1 + n + 1 := Or.inr (by omega)
+  simp [this]
 
 end Sml.C12
